@@ -114,6 +114,26 @@ Proof.
 Qed.
 Print Assumptions C18_vertex_at_depth.
 
+(* the same for histories of add_data calls that each carry ANY NUMBER of depth / from-to data sets (validated one after
+   the other, sort_depths once at the end of the call) *)
+Theorem C18_vertex_at_depth_calls : forall (pos : Q -> V3) calls, Forall (Forall op_ok) calls ->
+  let h := hrunc pos empty_hole calls in
+  (forall dv i d, h_depth h = Some dv -> nth_error dv i = Some (Some d) -> nth_error (h_verts h) i = Some (pos d))
+  /\ (forall dv, h_depth h = Some dv -> length dv = length (h_verts h))
+  /\ match h_ft h with
+     | None => h_cells h = []
+     | Some (froms, tos) =>
+         length froms = length (h_cells h) /\ length tos = length (h_cells h)
+         /\ forall c a b f t, nth_error (h_cells h) c = Some (a, b) -> nth_error froms c = Some f -> nth_error tos c = Some t ->
+              (exists u, (u == f)%Q /\ nth_error (h_verts h) a = Some (pos u))
+              /\ (exists u, (u == t)%Q /\ nth_error (h_verts h) b = Some (pos u))
+     end.
+Proof.
+  intros pos calls Hc h. destruct (hrunc_inv pos calls empty_hole (inv_empty pos) Hc) as [Hv [Hj Hl]].
+  split; [exact Hv|]. split; [intros dv H; apply (Hl dv H)|exact Hj].
+Qed.
+Print Assumptions C18_vertex_at_depth_calls.
+
 (* sort_depths moves whole rows: every vertex keeps its position, its DEPTH and the value of every vertex child *)
 Theorem C18_sort_keeps_rows : forall (pos : Q -> V3) h, inv_weak pos h ->
   forall i, i < length (h_verts h) ->
@@ -154,6 +174,32 @@ Theorem C18_values_stay_attached_partial :
     attached (hrun pos (hstep pos (hrun pos empty_hole ops) (AddDepth name depth values tol)) later) name d v tol.
 Proof. exact values_stay_attached. Qed.
 Print Assumptions C18_values_stay_attached_partial.
+
+(* PARTIAL, multi-data-set calls: the depth data set may sit anywhere in its call ([pre] before it, [post] after it);
+   the side condition is evaluated on the state its validation sees *)
+Theorem C18_values_stay_attached_calls_partial :
+  forall (pos : Q -> V3) calls pre post name depth values tol j d v later,
+    Forall (Forall op_ok) calls -> Forall op_ok pre -> Forall op_ok post -> Forall (Forall op_ok) later ->
+    depth <> [] -> length values = length depth -> (0 < tol)%Q ->
+    no_collision (fold_left (happly pos) pre (hrunc pos empty_hole calls)) depth tol ->
+    nth_error depth j = Some d -> nth_error values j = Some (Some v) ->
+    attached (hrunc pos (hcall pos (hrunc pos empty_hole calls) (pre ++ AddDepth name depth values tol :: post)) later) name d v tol.
+Proof. exact values_stay_attached_calls. Qed.
+Print Assumptions C18_values_stay_attached_calls_partial.
+
+(* non-vacuity: two depth data sets in ONE call, the first unsorted, the second sharing depths with it *)
+Example C18_multi_nonvacuous :
+  let pos := collision_pos in
+  let a := AddDepth 0 [75; 15; 45; 105; 30]%Q [Some (15 # 2); Some (3 # 2); Some (9 # 2); Some (21 # 2); Some 3]%Q (1 # 100)%Q in
+  let depth := [15; 60; 30; 90; 105]%Q in
+  let b := AddDepth 1 depth [Some (-15); Some (-60); Some (-30); Some (-90); Some (-105)]%Q (1 # 100)%Q in
+  no_collision (fold_left (happly pos) [a] empty_hole) depth (1 # 100)%Q
+  /\ attachedb (hcall pos empty_hole [a; b]) 1 15%Q (-15)%Q (1 # 100)%Q = true
+  /\ attachedb (hcall pos empty_hole [a; b]) 0 75%Q (15 # 2)%Q (1 # 100)%Q = true.
+Proof.
+  split; [|split; vm_compute; reflexivity].
+  unfold no_collision. vm_compute. repeat (constructor; [simpl; intuition discriminate|]). constructor.
+Qed.
 
 (* non-vacuity of the partial theorem: a history with unsorted and collocated (but not colliding) additions *)
 Example C18_data_nonvacuous :
